@@ -125,12 +125,25 @@ func (w *World) positions() []pos {
 }
 
 func (w *World) balanceOf(p pos) math.Int {
+	bal, _ := w.balanceOfP(p)
+	return bal
+}
+
+// balanceOfP asks the real gRPC query server for the reported balance of a position; a panic
+// inside the query handler (sdk.NewCoin on a negative value) is returned as text, balance zero
+func (w *World) balanceOfP(p pos) (bal math.Int, panicked string) {
+	defer func() {
+		if r := recover(); r != nil {
+			bal = math.ZeroInt()
+			panicked = fmt.Sprint(r)
+		}
+	}()
 	res, err := w.Query.AllianceDelegation(w.Ctx, &types.QueryAllianceDelegationRequest{DelegatorAddr: w.AccAddr(p.u).String(),
 		ValidatorAddr: w.ValAddr(p.v).String(), Denom: denomName(p.d)})
 	if err != nil {
-		return math.ZeroInt()
+		return math.ZeroInt(), ""
 	}
-	return res.Delegation.Balance.Amount
+	return res.Delegation.Balance.Amount, ""
 }
 
 func (w *World) assetIDs() []int64 {
